@@ -305,6 +305,29 @@ func inNaturalLoop(h, latch, b *ssa.BasicBlock) bool {
 // onFailingPath: the site is executed only when an earlier error e is non-nil
 // and every return reachable from it returns that e.
 func onFailingPath(fi *FuncInfo, at ssa.Instruction) bool {
+	if onFailingPathIn(fi, at) {
+		return true
+	}
+	// inside a private helper: judged within the helper, provided the caller does not drop the helper's error
+	p := fi.P
+	for h, n := at.Parent(), 0; h != nil && h != fi.Fn && n < 4; n++ {
+		l, ok := p.helpers[h]
+		if !ok {
+			return false
+		}
+		ev, has := errResult(l.call)
+		if !has || ev == nil || len(p.errSinks(ev)) == 0 {
+			return false
+		}
+		if onFailingPathIn(p.Info(h), at) {
+			return true
+		}
+		h = l.caller
+	}
+	return false
+}
+
+func onFailingPathIn(fi *FuncInfo, at ssa.Instruction) bool {
 	for _, f := range fi.FactsAt(at) {
 		cmp, ok := cmpOf(f.V, f.Val)
 		if !ok || cmp.Op != token.NEQ {
